@@ -17,19 +17,19 @@ SITE = {"DevEmptyListDefaultsToNoAuth": "agent.buildSOCKS5Auth+socks5.NewHandler
         "DevEmptyPasswordMatches": "agent.buildSOCKS5Auth"}
 
 
-def judge(ctx, variant, mism, panics, programs):
+def judge(ctx, variant, mism, panics, devrel):
     """Findings only from the property oracle evaluated on the real run (executed without matching credentials while
     authentication is on).  The deviation named in the key is the one whose scenario the real code followed."""
-    attack_of = {}
-    for p in programs:
-        if p["attack"]:
-            attack_of[(vf.canon(p["cfg"]), vf.canon([s["tok"] for s in p["steps"]]))] = p["attack"]
     drift = []
     for mm in mism:
         if mm.get("violation"):
             c = mm["cfg"]
             toks = [t["tok"] for t in mm.get("trace", [])]
-            dev = mm.get("attack") or attack_of.get((vf.canon(c), vf.canon(toks)))
+            tr = mm.get("trace", [])
+            dev = mm.get("attack") or S.explain(
+                devrel, lambda st: S.is_init(st, c), toks,
+                lambda e, i: list(e["a"]["rep"]) == list(tr[i].get("rep") or []) and
+                e["a"]["ex"] == ",".join(x.split(":", 1)[0] for x in (tr[i].get("ex") or [])))
             key = "Socks5:%s:%s" % (dev or "unexplained", SITE.get(dev, "users=%s" % c["users"]))
             ctx.finding(key, "SOCKS5 (%s) auth enabled, users=%s: executed %s for a client that never presented "
                              "credentials matching a configured user; client program %s; server replies %s" % (
@@ -49,7 +49,7 @@ def run(ctx):
     attacks = S.attack_paths(devrel, cap=None if ctx.quick() else 60000, rng=ctx.rng)
     programs = S.hs_programs(paths, attacks)
     summ, mism, panics = S.hs_replay(ctx, "pipe", programs, "c21pipe")
-    drift = judge(ctx, "pipe", mism, panics, programs)
+    drift = judge(ctx, "pipe", mism, panics, devrel)
     replayed = summ["programs"]
     steps = summ["steps"]
     extra = {}
@@ -58,12 +58,12 @@ def run(ctx):
         idx = range(len(programs)) if len(programs) <= 6000 else sorted(ctx.rng.sample(range(len(programs)), 6000))
         sample = [dict(programs[i], id=n) for n, i in enumerate(idx)]
         st, mt, pt = S.hs_replay(ctx, "tcp", sample, "c21tcp")
-        drift += judge(ctx, "tcp", mt, pt, sample)
+        drift += judge(ctx, "tcp", mt, pt, devrel)
         wsideal, wscaught, wsrel = S.model(ctx, "ws", S.HS_INVS, DEVS)
         wpaths, wtotal, wedges, _ = S.all_programs(wsideal.edges)
         wprogs = S.hs_programs(wpaths, S.attack_paths(wsrel))
         sw, mw, pw = S.hs_replay(ctx, "ws", wprogs, "c21ws")
-        drift += judge(ctx, "ws", mw, pw, wprogs)
+        drift += judge(ctx, "ws", mw, pw, wsrel)
         replayed += st["programs"] + sw["programs"]
         steps += st["steps"] + sw["steps"]
         extra = {"tcp_programs": st["programs"], "ws_programs": sw["programs"], "ws_states": wsideal.distinct,
